@@ -490,7 +490,15 @@ run_cmd do
         def run(job):
             label, path, g = job
             if g:
-                self.gen_ops(g[0], g[1], path)
+                try:
+                    self.gen_ops(g[0], g[1], path)
+                except RuntimeError as e:
+                    # generators build their inputs with the real code (names, packets): a crash there is a
+                    # crash of the code under test on a generated input, not a reason to stop the check
+                    if not any(b[0] == "harness-generator" for b in self.broken):
+                        self.broken.append(("harness-generator", "the input generator of the harness, which builds its inputs "
+                                            "with the real code, crashed against the working tree:\n" + str(e)[-3000:]))
+                    return label, [], [], {"diff": [], "spec": [], "cov": {}, "nt": set(), "raw": ""}
                 for ln in open(path, errors="replace"):
                     if ln.startswith("#stat "):
                         _, k, n = ln.split()
